@@ -459,6 +459,58 @@ def style_case(sub: Ctx, seed: int, h: int):
     for k, st in enumerate(styles):
         if st.name not in doc2.styles:
             sub.violation("document-style-missing-after-reload", f"Document.styles lacks {st.name!r} after reopen", where)
+    # second phase: cells that already carry a stored style are restyled (on the document that was just saved, or on the
+    # reopened file), also with styles whose cell-level attributes are all defaults, then saved and reopened again:
+    # every attribute of the newer style must replace the older one's, in the open document and in the file
+    if rng.random() < 0.75:
+        reopened = rng.random() < 0.5
+        bdoc, btb = (doc2, tb2) if reopened else (doc, tb)
+        expected = {rc: want[k] for rc, k in styled.items()}
+        log2 = []
+        news = []
+        for j in range(rng.randint(1, 3)):
+            if j == 0 or rng.random() < 0.5:
+                kw = {"name": f"P{j} text only"}  # nothing cell-level: no fill, default inset / wrap / vertical alignment
+                for a in ("bold", "italic", "strikethrough", "underline"):
+                    if rng.random() < 0.5:
+                        kw[a] = True
+                if rng.random() < 0.5:
+                    kw["font_size"] = rng.choice(SIZES)
+                if rng.random() < 0.5:
+                    kw["alignment"] = (rng.choice(HORIZ), "top")
+                if rng.random() < 0.3:
+                    kw["left_indent"] = rng.choice(F32)
+            else:
+                kw = gen_style_kwargs(rng, fonts, 100 + j, with_image=False)
+                kw["name"] = f"P{j} " + kw["name"]
+            news.append(bdoc.add_style(**kw))
+            log2.append(dict(kw))
+        pool = sorted(styled) + [rc for rc in cells if rc not in styled][:2]
+        rng.shuffle(pool)
+        for (r, c) in pool[: rng.randint(1, max(1, len(pool) // 2 + 1))]:
+            st = rng.choice(news)
+            btb.set_cell_style(r, c, st if rng.random() < 0.6 else st.name)
+            expected[(r, c)] = style_tuple(st)
+        where2 = dict(where, second_phase={"on_reopened_document": reopened, "styles": log2,
+                                           "restyled": [[r, c] for (r, c) in sorted(expected) if expected[(r, c)] != want.get(styled.get((r, c)))]})
+        for (r, c), w in expected.items():
+            got = cell_style_or_exc(btb.cell(r, c))
+            if got != w:
+                sub.violation("restyle-open-differs", f"open document after restyling: cell ({r},{c}) {diff_attrs(got, w)}", where2)
+        fd, path = tempfile.mkstemp(suffix=".numbers")
+        os.close(fd)
+        try:
+            bdoc.save(path)
+            doc3 = Document(path)
+        finally:
+            os.unlink(path)
+        tb3 = doc3.sheets[0].tables[0]
+        sub.count("restyle cases: stored styles replaced (also by styles with default cell-level attributes), saved and reopened", 1)
+        for (r, c), w in expected.items():
+            got = cell_style_or_exc(tb3.cell(r, c))
+            if got != w:
+                sub.violation("restyle-reloaded-differs",
+                              f"after restyling, save and reopen: cell ({r},{c}) {diff_attrs(got, w)}", where2)
     return [(line, reply)]
 
 
